@@ -19,12 +19,14 @@ DOCS = [
      "m": {"k": "5"}, "em": {}, "lm": [{"k": 5}], "s2": 1, "t2": "ab"},
 ]
 QUERIES = ['s', 't', 'f', 'b', 'n', 'l', 'l[*]', 'ls[*]', 'e', 'e[*]', 'm', 'm.k', 'm.*', 'em', 'missing',
-           'm.missing', 'lm[*].k', 'lm[ k == 5 ].k', 'lm[ k == 77 ].k', 'l[0]', 'l[7]']
+           'm.missing', 'lm[*].k', 'lm[ k == 5 ].k', 'lm[ k == 77 ].k', 'l[0]', 'l[7]',
+           'lm[ k == 5 ]', 'lm[ k == 77 ]', 'missing[ k == 1 ]', 'm.missing[ k == 1 ]', 'lm[ j exists ]',
+           '%qv', '%mv', '%lv', '%lit', '%ev', 'm[ keys == "k" ]', 'm[ keys == "zz" ]', 'n[ k == 1 ]']
 RHS = ['5', '1', '"ab"', '"zz"', '1.5', 'true', 'null', '[1, 5]', '["ab", "c"]', '[]', 'r[1,5]', '/^a/',
        's2', 't2', 'l', 'l[*]', 'missing', '%lit', '%qv', '{k: 5, j: "x"}']
 BINARY = ['==', 'in', '>', '>=', '<', '<=']
 UNARY = ['exists', 'empty', 'is_string', 'is_list', 'is_struct', 'is_bool', 'is_int', 'is_float', 'is_null']
-HEADER = 'let lit = 5\nlet qv = s2\n'
+HEADER = 'let lit = 5\nlet qv = s2\nlet mv = missing.x\nlet lv = l[*]\nlet ev = lm[ k == 77 ]\n'
 
 
 def variants(q, some, op, rhs):
@@ -159,6 +161,28 @@ def run_groups(ctx, groups, tag):
     return n, dist
 
 
+def random_groups(ctx, n):
+    """clauses from the program generator on generated documents, with their negation variants"""
+    rng = random.Random(ctx.seed * 31 + 5)
+    groups = []
+    style = dict(gen.DEFAULT_STYLE)
+    while len(groups) < n:
+        doc = gen.gen_doc(rng)
+        if not isinstance(doc, dict):
+            continue
+        pg = gen.ProgGen(rng, doc, dict(functions=False, prefix_not=False, keys=True))
+        for _ in range(4):
+            p, v = pg.pick_path()
+            q, reached = pg.query_for_path(p)
+            c = pg.clause_on(q, reached)
+            _, neg, q, op, opnot, rhs, msg = c
+            A = gen.render_clause(('cmp', False, q, op, False, rhs, None), style)
+            C = gen.render_clause(('cmp', False, q, op, True, rhs, None), style) if (op in ('==', 'in') or op in UNARY) else None
+            groups.append((doc, gen.render_query(dict(q, some=False), style), q.get('some', False), op,
+                           gen.render_rhs(rhs, style) if rhs else None, A, C))
+    return groups[:n]
+
+
 def named_rule_groups(ctx):
     """`not R` is PASS exactly when R is not PASS; R referenced before and after its definition"""
     doc = DOCS[0]
@@ -207,6 +231,9 @@ def run(ctx):
     if ctx.tier == 'quick':
         groups = rng.sample(groups, 900)
     n, dist = run_groups(ctx, groups, 'c03')
+    n3, dist3 = run_groups(ctx, random_groups(ctx, 400 if ctx.tier == 'quick' else 3000), 'c03rnd')
+    ctx.coverage['random_clause_groups'] = n3
+    n += n3
     n2 = named_rule_groups(ctx)
     ctx.coverage['clause_groups_total'] = total
     ctx.coverage['clause_groups_run'] = len(groups)
